@@ -35,6 +35,7 @@ type world struct {
 	// keyed by (segment timestamp, MAC).
 	beta map[betaKey]uint16
 	desc string
+	now  time.Time
 }
 
 func newWorld(rng *rand.Rand, chain int, epic bool, wi int) (*world, error) {
@@ -44,7 +45,8 @@ func newWorld(rng *rand.Rand, chain int, epic bool, wi int) (*world, error) {
 	} else {
 		t = simtopo.Generate(rng, simtopo.Params{MaxASes: 6 + rng.IntN(8), CorePeering: rng.IntN(2) == 0, PeerLinks: 1 + rng.IntN(4)})
 	}
-	bn, err := simbeacon.New(t, simbeacon.Params{Now: time.Now(), MaxAge: 10 * time.Minute, ExpTimeMin: 20, ExpTimeMax: 250, EPIC: epic})
+	now := time.Now()
+	bn, err := simbeacon.New(t, simbeacon.Params{Now: now, MaxAge: 10 * time.Minute, ExpTimeMin: 20, ExpTimeMax: 250, EPIC: epic})
 	if err != nil {
 		return nil, err
 	}
@@ -56,7 +58,7 @@ func newWorld(rng *rand.Rand, chain int, epic bool, wi int) (*world, error) {
 	if err != nil {
 		return nil, err
 	}
-	w := &world{topo: t, bn: bn, segs: segs, net: sn, beta: map[betaKey]uint16{}}
+	w := &world{topo: t, bn: bn, segs: segs, net: sn, beta: map[betaKey]uint16{}, now: now}
 	w.desc = fmt.Sprintf("%s/%dAS", t.Family, len(t.ASes))
 	add := func(s *seg.PathSegment) {
 		b := s.Info.SegmentID
